@@ -23,6 +23,10 @@ type Module struct {
 	Groupings  []*Grouping
 	Top        []*DNode // top-level data nodes (own + nodes others augmented in are tracked on the DNode)
 	Extensions []string // names of extension statements defined here
+	IdBase     map[string]struct {
+		m *Module
+		n string
+	} // derived identity defined here -> its base
 }
 
 type TypeDef struct {
@@ -32,6 +36,8 @@ type TypeDef struct {
 	Lo, Hi int    // numeric range or string length range
 	Enums  []string
 	HasDef bool
+	IdName string  // Base "identityref": an identity derived from the base (a usable value), and
+	IdMod  *Module // the module that defines it
 }
 
 type Grouping struct {
@@ -419,6 +425,18 @@ func (g *gen) identities(m *Module) {
 			if c.m != m {
 				g.set.Probes["identity_base_cross_module"] = true
 			}
+			if !m.Sub {
+				if m.IdBase == nil {
+					m.IdBase = map[string]struct {
+						m *Module
+						n string
+					}{}
+				}
+				m.IdBase[id.Arg] = struct {
+					m *Module
+					n string
+				}{c.m, c.n}
+			}
 		}
 		m.Root.Add(id)
 		if m.Sub && !t.Rare(48) {
@@ -470,6 +488,8 @@ func (g *gen) typeStmt(m *Module, depth int) (*Stmt, string) {
 			if len(td.Enums) > 0 {
 				def = td.Enums[0]
 			}
+		case "identityref":
+			def = g.idValue(m, td)
 		}
 		if td.Mod != m {
 			g.set.Probes["imported_typedef_used"] = true
@@ -566,6 +586,20 @@ func (g *gen) typeStmt(m *Module, depth int) (*Stmt, string) {
 	}
 }
 
+// idValue spells the identity that a typedef of identityref type can take as value, as seen from module m.
+func (g *gen) idValue(m *Module, td *TypeDef) string {
+	if td.IdMod == nil {
+		return ""
+	}
+	if g.owner(td.IdMod) == g.owner(m) {
+		if g.t.Rare(3) && !m.Sub {
+			return m.Prefix + ":" + td.IdName
+		}
+		return td.IdName
+	}
+	return g.pfx(m, td.IdMod) + ":" + td.IdName
+}
+
 func (g *gen) typedefs(m *Module) {
 	t := g.t
 	for n := g.times(3, t.Draw(4)); n > 0; n-- {
@@ -604,13 +638,41 @@ func (g *gen) typedefs(m *Module) {
 				if len(td.Enums) > 0 {
 					def = td.Enums[0]
 				}
+			case "identityref":
+				td.IdName, td.IdMod = b.IdName, b.IdMod
+				def = g.idValue(m, td)
+				g.set.Probes["typedef_chain_ending_in_identityref"] = true
 			}
 			g.set.Probes["typedef_chain"] = true
 			if b.Mod != m {
 				g.set.Probes["typedef_chain_cross_module"] = true
 			}
 		} else {
-			switch t.Draw(3) {
+			kind := t.Draw(3)
+			// an identityref typedef when the module sees an identity that has a derived identity (a usable value)
+			type idp struct {
+				base, val string
+				bm, vm    *Module
+			}
+			var ids []idp
+			if t.Rare(3) {
+				for _, v := range g.visible(m) {
+					for d, b := range v.IdBase {
+						ids = append(ids, idp{b.n, d, b.m, v})
+					}
+				}
+				sort.Slice(ids, func(i, j int) bool { return ids[i].val+ids[i].vm.Name < ids[j].val+ids[j].vm.Name })
+			}
+			if len(ids) > 0 {
+				kind = 3
+			}
+			switch kind {
+			case 3:
+				c := ids[t.Draw(len(ids))]
+				td.Base, td.IdName, td.IdMod = "identityref", c.val, c.vm
+				ty = S("type", "identityref", S("base", g.ref(m, c.bm, c.base)))
+				def = g.idValue(m, td)
+				g.set.Probes["typedef_of_identityref"] = true
 			case 0:
 				it := intTypes[t.Draw(len(intTypes))]
 				td.Base, td.Lo, td.Hi = "int", it.lo/2, it.hi/2
